@@ -172,8 +172,9 @@ struct MappedClass {
         for (size_t i = 0; i < nops; ++i) {
             unsigned r = (unsigned) work.below(10);
             std::string slot = "s" + std::to_string(slot_no);
-            if (!have_f1 && (r < 5 || i == 0)) { p.item('O', "create-range " + slot + " F1" + faults_for(est)); live.push_back(slot); ++slot_no; have_f1 = true; }
-            else if (!have_f2 && r < 7) { if (!have_raw) { p.item('O', "write-raw"); have_raw = true; } p.item('O', "create-raw " + slot + " F2" + faults_for(est)); live.push_back(slot); ++slot_no; have_f2 = true; }
+            auto prefill = [&](const char *f) { if (work.chance(250)) p.item('O', "prefill " + std::to_string(work.coin() ? work.range(1, 200) : work.range(1, 3 * n * sizeof(K) + 4096)) + " " + f); };
+            if (!have_f1 && (r < 5 || i == 0)) { prefill("F1"); p.item('O', "create-range " + slot + " F1" + faults_for(est)); live.push_back(slot); ++slot_no; have_f1 = true; }
+            else if (!have_f2 && r < 7) { if (!have_raw) { p.item('O', "write-raw"); have_raw = true; } prefill("F2"); p.item('O', "create-raw " + slot + " F2" + faults_for(est)); live.push_back(slot); ++slot_no; have_f2 = true; }
             else if (r < 5 && (have_f1 || have_f2)) { std::string f = have_f1 && (!have_f2 || work.coin()) ? "F1" : "F2"; p.item('O', "reopen " + slot + " " + f + faults_for(est / 2 + 3)); live.push_back(slot); ++slot_no; }
             else if (r < 7 && !live.empty()) { p.item('O', "query " + live[work.below(live.size())]); }
             else if (r < 8 && !live.empty()) { size_t j = work.below(live.size()); p.item('O', "destroy " + live[j]); live.erase(live.begin() + j); }
@@ -255,7 +256,16 @@ struct MappedClass {
             if (single) { if (single->first == oi) faults.push_back(single->second); } else faults = o.faults;
             tr.add_str(o.kind);
             std::string what = o.kind + " " + o.slot + (o.file.empty() ? "" : " " + o.file) + " (op " + std::to_string(oi) + ")";
-            if (o.kind == "write-raw") {
+            if (o.kind == "prefill") {
+                // a stale, usually longer file already sits at the output path (left by an earlier, larger index)
+                std::string file = file_of(c, o.file);
+                bool mapped = false; for (auto &kv : c.inst) if (kv.second.file == file) mapped = true;
+                if (mapped || valid_of(c, o.file)) continue;
+                size_t bytes = (size_t) std::strtoull(o.slot.c_str(), nullptr, 10);
+                std::vector<unsigned char> junk(bytes, o.file == "F2" ? 0x5A : 0xA5);
+                write_file(file, junk.data(), junk.size());
+                st.inc("reach.output_file_preexisting");
+            } else if (o.kind == "write-raw") {
                 write_file(c.raw, d.data(), d.size() * sizeof(K));
                 c.raw_valid = true;
             } else if (o.kind == "create-range" || o.kind == "create-raw" || o.kind == "reopen") {
